@@ -1,5 +1,40 @@
 import CanvasModel.Driver
 import CanvasModel.C14
-open Canvas
-def handle : List String → Option String := Canvas.C14.handle
-def main : IO Unit := runDriver handle
+import CanvasGen.CoreF
+open Canvas Canvas.C14
+
+def parseMat (ts : List String) : Option (Mat Float) :=
+  match ts.mapM floatOfHex? with
+  | some [a, b, c, d, e, f] => some ⟨a, b, c, d, e, f⟩
+  | _ => none
+
+def fmtMat (m : Mat Float) : String :=
+  " ".intercalate ([m.a, m.b, m.c, m.d, m.e, m.f].map hexOfFloat)
+
+def identF : Mat Float := ⟨1.0, 0.0, 0.0, 0.0, 1.0, 0.0⟩
+
+/--
+  PIPE hpx dpmm view×6 m×6 x y   → the 26.6 point the scanner receives for canvas point (x, y) of a layer
+                                   with matrix m rendered through RenderViewTo(view)
+  CSV cs W H                     → Context.CoordSystemView as 6 floats (cs = 0..3)
+-/
+def handleAll : List String → Option String
+  | "PIPE" :: hpx :: dpmm :: ts => do
+    let hpx ← hpx.toInt?
+    let d ← floatOfHex? dpmm
+    let view ← parseMat (ts.take 6)
+    let m ← parseMat ((ts.drop 6).take 6)
+    match (ts.drop 12).mapM floatOfHex? with
+    | some [x, y] =>
+      let q := pipelinePt GenF.Matrix.Mul GenF.Matrix.Dot G.pixelX G.pixelY view m (Float.ofInt hpx) d ⟨x, y⟩
+      match G.fixedPoint q.x, G.fixedPoint q.y with
+      | some a, some b => pure s!"{a} {b}"
+      | _, _ => pure "range"
+    | _ => none
+  | ["CSV", cs, w, h] => do
+    let cs ← cs.toNat?
+    let w ← floatOfHex? w
+    let h ← floatOfHex? h
+    pure (fmtMat (coordSystemView identF GenF.Matrix.ReflectXAbout GenF.Matrix.ReflectYAbout (w / 2.0) (h / 2.0) cs))
+  | ts => Canvas.C14.handle ts
+def main : IO Unit := runDriver handleAll
